@@ -476,3 +476,158 @@ Proof.
   destruct (mut_loop _ _ _) as [u c3]. cbn [snd] in S3.
   rewrite finish_cur. unfold zlen in *. nia.
 Qed.
+
+(* ------------------------------------------------------------------------------------------ *)
+(* the hall of fame's key list stays the reversed fitness list of its items (both are         *)
+(* pickled; losing either breaks bisect_right in the resumed process)                         *)
+(* ------------------------------------------------------------------------------------------ *)
+Definition hof_consistent (h : hof) : Prop := hof_keys h = rev (map fitw (hof_items h)).
+
+Lemma bisect_loop_bounds fuel keys x lo hi : lo <= hi -> lo <= bisect_loop fuel keys x lo hi <= hi.
+Proof.
+  revert lo hi; induction fuel as [|f IH]; intros lo hi H; cbn [bisect_loop]; [lia|].
+  destruct (lo <? hi) eqn:E; [|lia]. apply Z.ltb_lt in E.
+  assert (M : lo <= (lo + hi) / 2 < hi).
+  { split; [apply Z.div_le_lower_bound; lia|apply Z.div_lt_upper_bound; lia]. }
+  destruct (tup_cmp OpLt x (nth (Z.to_nat ((lo + hi) / 2)) keys [])).
+  - specialize (IH lo ((lo + hi) / 2) ltac:(lia)). lia.
+  - specialize (IH ((lo + hi) / 2 + 1) hi ltac:(lia)). lia.
+Qed.
+
+Lemma bisect_right_bounds keys x : 0 <= bisect_right keys x <= zlen keys.
+Proof. unfold bisect_right. apply bisect_loop_bounds. unfold zlen. lia. Qed.
+
+Lemma rev_insert_at {A} (l : list A) (n i : nat) (v : A) :
+  length l = n -> (i <= n)%nat ->
+  rev (firstn (n - i) l ++ v :: skipn (n - i) l) = firstn i (rev l) ++ v :: skipn i (rev l).
+Proof.
+  intros L Hi. rewrite rev_app_distr. cbn [rev]. rewrite <- app_assoc. cbn [app].
+  rewrite firstn_rev, skipn_rev, L.
+  replace (n - (n - i))%nat with i by lia. reflexivity.
+Qed.
+
+Lemma hof_insert_consistent h item : hof_consistent h -> hof_consistent (hof_insert h item).
+Proof.
+  unfold hof_consistent, hof_insert. intro C. cbn [hof_keys hof_items].
+  pose proof (bisect_right_bounds (hof_keys h) (fitw item)) as B.
+  set (i := bisect_right (hof_keys h) (fitw item)) in *.
+  assert (Lk : zlen (hof_keys h) = zlen (hof_items h)).
+  { unfold zlen. rewrite C, rev_length, map_length. reflexivity. }
+  unfold insert_at. rewrite map_app. cbn [map]. rewrite <- firstn_map, <- skipn_map.
+  set (l := map fitw (hof_items h)) in *.
+  assert (Ll : length l = length (hof_items h)) by (unfold l; apply map_length).
+  replace (Z.to_nat (zlen (hof_items h) - i)) with (length l - Z.to_nat i)%nat
+    by (unfold zlen in *; lia).
+  rewrite (rev_insert_at l (length l) (Z.to_nat i) (fitw item) eq_refl) by (unfold zlen in *; lia).
+  rewrite C. reflexivity.
+Qed.
+
+Lemma rev_removelast {A} (l : list A) : rev (removelast l) = tl (rev l).
+Proof.
+  induction l as [|a l IH] using rev_ind; [reflexivity|].
+  rewrite removelast_last, rev_app_distr. reflexivity.
+Qed.
+
+Lemma map_removelast {A B} (f : A -> B) (l : list A) : map f (removelast l) = removelast (map f l).
+Proof.
+  induction l as [|a l IH]; [reflexivity|].
+  destruct l as [|b l]; [reflexivity|]. cbn [removelast map] in *. rewrite IH. reflexivity.
+Qed.
+
+Lemma hof_remove_last_consistent h : hof_consistent h -> hof_consistent (hof_remove_last h).
+Proof.
+  unfold hof_consistent, hof_remove_last. intro C. cbn [hof_keys hof_items].
+  rewrite map_removelast, rev_removelast, C. reflexivity.
+Qed.
+
+Lemma hof_step_consistent first h ind : hof_consistent h -> hof_consistent (hof_step first h ind).
+Proof.
+  intro C. unfold hof_step.
+  destruct ((zlen (hof_items h) =? 0) && negb (hof_max h =? 0)); [apply hof_insert_consistent, C|].
+  destruct (tup_cmp OpGt (fitw ind) (fitw (last (hof_items h) dflt_ind)) || (zlen (hof_items h) <? hof_max h)); [|exact C].
+  destruct (existsb _ (hof_items h)); [exact C|].
+  apply hof_insert_consistent.
+  destruct (zlen (hof_items h) >=? hof_max h); [apply hof_remove_last_consistent, C|exact C].
+Qed.
+
+Lemma hof_update_consistent h pop : hof_consistent h -> hof_consistent (hof_update h pop).
+Proof.
+  unfold hof_update. destruct pop as [|first pop']; [tauto|].
+  generalize (first :: pop') as l. intros l; revert h.
+  induction l as [|x l IH]; intros h C; cbn [fold_left]; [exact C|].
+  apply IH, hof_step_consistent, C.
+Qed.
+
+Lemma step_hof_consistent P sch op s : hof_consistent (st_hof s) -> hof_consistent (st_hof (step P sch op s)).
+Proof.
+  intro C. destruct op as [|g]; cbn [step].
+  - unfold finish; cbn [st_hof]. apply hof_update_consistent, C.
+  - destruct (sel_tournament _ _ _ _) as [sel c1]. destruct (mate_loop _ _ _) as [m c2].
+    destruct (mut_loop _ _ _) as [u c3]. unfold finish; cbn [st_hof]. apply hof_update_consistent, C.
+Qed.
+
+Theorem run_hof_consistent P sch gs s :
+  hof_consistent (st_hof s) -> hof_consistent (st_hof (run (step P sch) gs s)).
+Proof.
+  revert s; induction gs as [|g gs IH]; intros s C; [exact C|].
+  unfold run in *; cbn [fold_left]. apply IH, step_hof_consistent, C.
+Qed.
+
+Lemma init_hof_consistent pop0 hofmax : hof_consistent (st_hof (init_state pop0 hofmax)).
+Proof. reflexivity. Qed.
+
+(* ------------------------------------------------------------------------------------------ *)
+(* the logbook's chapters stay aligned with the main record list, and everything recorded has *)
+(* been streamed (buffindex = number of records) at every generation boundary                 *)
+(* ------------------------------------------------------------------------------------------ *)
+Definition log_aligned (lg : logbook) : Prop :=
+  lb_buff lg = zlen (lb_recs lg) /\
+  ((lb_chapters lg = [] /\ lb_recs lg = []) \/
+   (exists a b, lb_chapters lg = [(0, a); (1, b)] /\
+                length (sl_recs a) = length (lb_recs lg) /\ length (sl_recs b) = length (lb_recs lg) /\
+                sl_buff a = 0 /\ sl_buff b = 0)).
+
+Lemma log_record_aligned lg g nevals pop : log_aligned lg -> log_aligned (log_record lg g nevals pop).
+Proof.
+  intros [_ [[Hc Hr]|[a [b [Hc [La [Lb [Ba Bb]]]]]]]]; unfold log_record; rewrite Hc.
+  - rewrite Hr. split; [reflexivity|]. right. cbn. eexists; eexists. split; [reflexivity|].
+    cbn. repeat split; reflexivity.
+  - split; [reflexivity|]. right. cbn. eexists; eexists. split; [reflexivity|].
+    cbn [sub_record sl_recs sl_buff lb_recs]. rewrite !app_length, La, Lb. cbn. repeat split; assumption || reflexivity.
+Qed.
+
+Lemma step_log_aligned P sch op s : log_aligned (st_log s) -> log_aligned (st_log (step P sch op s)).
+Proof.
+  intro C. destruct op as [|g]; cbn [step].
+  - unfold finish; cbn [st_log]. apply log_record_aligned, C.
+  - destruct (sel_tournament _ _ _ _) as [sel c1]. destruct (mate_loop _ _ _) as [m c2].
+    destruct (mut_loop _ _ _) as [u c3]. unfold finish; cbn [st_log]. apply log_record_aligned, C.
+Qed.
+
+Theorem run_log_aligned P sch gs s : log_aligned (st_log s) -> log_aligned (st_log (run (step P sch) gs s)).
+Proof.
+  revert s; induction gs as [|g gs IH]; intros s C; [exact C|].
+  unfold run in *; cbn [fold_left]. apply IH, step_log_aligned, C.
+Qed.
+
+Lemma init_log_aligned pop0 hofmax : log_aligned (st_log (init_state pop0 hofmax)).
+Proof. split; [reflexivity|]. left. split; reflexivity. Qed.
+
+(* one record per executed generation operation *)
+Lemma log_record_count lg g nevals pop : length (lb_recs (log_record lg g nevals pop)) = S (length (lb_recs lg)).
+Proof. unfold log_record; cbn [lb_recs]. rewrite app_length. cbn. lia. Qed.
+
+Lemma step_log_count P sch op s : length (lb_recs (st_log (step P sch op s))) = S (length (lb_recs (st_log s))).
+Proof.
+  destruct op as [|g]; cbn [step].
+  - unfold finish; cbn [st_log]. apply log_record_count.
+  - destruct (sel_tournament _ _ _ _) as [sel c1]. destruct (mate_loop _ _ _) as [m c2].
+    destruct (mut_loop _ _ _) as [u c3]. unfold finish; cbn [st_log]. apply log_record_count.
+Qed.
+
+Theorem run_log_count P sch gs s :
+  length (lb_recs (st_log (run (step P sch) gs s))) = (length gs + length (lb_recs (st_log s)))%nat.
+Proof.
+  revert s; induction gs as [|g gs IH]; intro s; [reflexivity|].
+  unfold run in *; cbn [fold_left length]. rewrite IH, step_log_count. lia.
+Qed.
